@@ -66,8 +66,29 @@ func isMapLookupOf(par *ssa.Parameter) func(v ssa.Value) bool {
 		if !ok {
 			return false
 		}
-		lk, ok := ex.Tuple.(*ssa.Lookup)
-		return ok && lk.X == ssa.Value(par)
+		if lk, ok := ex.Tuple.(*ssa.Lookup); ok {
+			return lk.X == ssa.Value(par)
+		}
+		// the lookup made by a helper that receives the table: attr, err := formatAttr(format, idx, …)
+		if c, ok := ex.Tuple.(*ssa.Call); ok && ex.Index == 0 {
+			sc := c.Call.StaticCallee()
+			if sc == nil || len(sc.Blocks) == 0 {
+				return false
+			}
+			for k, a := range c.Call.Args {
+				if a != ssa.Value(par) || k >= len(sc.Params) {
+					continue
+				}
+				for _, b := range sc.Blocks {
+					for _, ins := range b.Instrs {
+						if lk, ok := ins.(*ssa.Lookup); ok && lk.X == ssa.Value(sc.Params[k]) {
+							return true
+						}
+					}
+				}
+			}
+		}
+		return false
 	}
 }
 
@@ -589,8 +610,16 @@ func ruleSSALiterals(p *Prog, l *Ledger, tier string) {
 		for _, ins := range b.Instrs {
 			switch x := ins.(type) {
 			case *ssa.Call:
-				if sc := x.Call.StaticCallee(); sc != nil && sc.String() == "strings.HasPrefix" {
+				if sc := x.Call.StaticCallee(); sc != nil && (sc.String() == "strings.HasPrefix" || sc.String() == "strings.CutPrefix" || sc.String() == "strings.TrimPrefix") {
 					rPrefix, _ = constStr(x.Call.Args[1])
+				}
+				// the radix may be passed as a constant to the parser under the prefix test
+				for _, a := range x.Call.Args {
+					if c, ok := constInt(a); ok && c == 16 && isIntegerT(a.Type()) {
+						if sc := x.Call.StaticCallee(); sc != nil && (fnPkg(sc) == p.LibSSA || strings.HasPrefix(sc.String(), "strconv.Parse")) {
+							base16 = true
+						}
+					}
 				}
 			case *ssa.Phi:
 				for _, e := range x.Edges {
